@@ -626,6 +626,19 @@ func (ec *EvalCtx) tryLvalOrPtr(e Expr) lval {
 		}
 		ec.fail("%s is not a pointer to a struct (type %v)", id.Name, v.G)
 	}
+	if sel, ok := e.(*ESel); ok {
+		// a pointer-typed field of a struct VALUE (e.g. a by-value receiver): no location involved
+		if id, isId := sel.X.(*EIdent); isId {
+			if v, found := ec.lookupName(id.Name); found && v.G != nil {
+				if st, isS := v.G.Underlying().(*types.Struct); isS {
+					fv := ec.selStructVal(v, st, sel.Name)
+					if pt, ok := derefType(fv.G); ok {
+						return lval{fv.T, pt}
+					}
+				}
+			}
+		}
+	}
 	switch x := e.(type) {
 	case *ESel, *EIdx:
 		lv := ec.lvalOf(x)
@@ -935,6 +948,19 @@ func (ec *EvalCtx) evalCall(x *ECall) Val {
 	case "sarr":
 		v := ec.eval(x.Args[0])
 		return Val{T: fmt.Sprintf("(sarr %s)", v.T), S: SInt}
+	case "visitedcount": // number of keys the map range of the current loop has produced so far
+		if ec.loop != nil {
+			for b := range ec.loop.body {
+				for _, in := range b.Instrs {
+					if nx, ok := in.(*ssa.Next); ok {
+						if it := ec.fr.iters[nx.Iter]; it != nil && it.isMap && it.count != "" {
+							return Val{T: ex.memGet(ec.mem, it.count), S: SInt}
+						}
+					}
+				}
+			}
+		}
+		ec.fail("visitedcount() outside a map-range loop")
 	case "visited":
 		// the visited-set of the (unique) map range iterator of the current loop
 		if ec.loop != nil {
@@ -1298,6 +1324,14 @@ func (ex *Exec) declUFun(uf *UFunDecl) {
 
 // resolveType finds a Go type by "pkgpath.Name" or "*pkgpath.Name".
 func (ex *Exec) resolveType(s string) types.Type {
+	switch s {
+	case "string":
+		return types.Typ[types.String]
+	case "int":
+		return types.Typ[types.Int]
+	case "bool":
+		return types.Typ[types.Bool]
+	}
 	if strings.HasPrefix(s, "[]") {
 		if et := ex.resolveType(s[2:]); et != nil {
 			return types.NewSlice(et)
